@@ -7,6 +7,7 @@ from typing import Dict, List, Optional, Set, Tuple
 
 from ..core import AnalysisError, RuleSpec
 from ..pymodel import call_name
+from .. import astq
 
 EXPLANATION = (
     "Schema-driven rules over settings.py / __init__.py. R1 (no stale derived state): the pairs "
@@ -150,52 +151,94 @@ KNOWN_TYPES = {
 
 
 def r2_conversion(ctx, rep):
+    """Decided on the inlined event trace of convert_setting: for every declared field type there is a conversion (a
+    return) that runs under a test of exactly that type; the dictionary conversions see the value only after empty
+    entries were dropped."""
     py = ctx.py
     cs = py.func("settings.convert_setting")
-    src = ast.unparse(cs)
-    branch_for = {
-        "bool": "is_same_type(default_type, bool)", "int": "is_same_type(default_type, int)",
-        "str": "is_same_type(default_type, str) or is_same_type(default_type, Path)",
-        "list": "return value", "dict-sep": "OPTION_SEPARATORS[key]",
-        "dict-filetype": "ExtraFileType.from_string",
+    ev = astq.trace(cs, astq.class_method_resolver(py, None, "settings"), max_depth=2)
+    idx = {id(e): i for i, e in enumerate(ev)}
+
+    def expanded_conds(e) -> List[str]:
+        """positive path conditions with local boolean names replaced by their definitions"""
+        out = []
+        for test, pol, subst in e.conds:
+            if not pol:
+                continue
+            t = astq.unparse_subst(test, subst)
+            for n in ast.walk(test):
+                if isinstance(n, ast.Name):
+                    for a2 in ev:
+                        if a2.kind == "assign" and a2.target == n.id and a2.value is not None and idx[id(a2)] < idx[id(e)]:
+                            t += " " + a2.text(a2.value)
+            out.append(t)
+        return out
+
+    rets = [e for e in ev if e.kind in ("return", "assign") and isinstance(e.node, ast.Return)]
+
+    def branch(pred) -> List:
+        return [e for e in rets if any(pred(c) for c in expanded_conds(e))]
+
+    ttest = lambda ty: (lambda c: re.search(rf"is_same_type\(\s*default_type\s*,\s*{ty}\s*\)|default_type\s+is\s+{ty}\b|default_type\s*==\s*{ty}\b", c) is not None)  # noqa: E731
+    is_dict = lambda c: re.search(r"get_origin\(default_type\) is dict|get_origin\(default_type\) == dict|is_same_type\(default_type, dict\)", c) is not None  # noqa: E731
+    has = {
+        "bool": bool(branch(ttest("bool"))),
+        "int": any(any(isinstance(x, ast.Call) and call_name(x) == "int" for x in ast.walk(e.node)) for e in branch(ttest("int"))),
+        "str": bool(branch(ttest("str"))) and bool(branch(ttest("Path"))),
+        "list": any(isinstance(e.node.value, (ast.List, ast.Call)) for e in branch(ttest("list"))),
     }
-    seps = set()
-    for st in py.modules["settings"].body:
-        if isinstance(st, ast.Assign) and any(isinstance(t, ast.Name) and t.id == "OPTION_SEPARATORS" for t in st.targets):
-            seps = {k.value for k in st.value.keys}
+    dict_rets = branch(is_dict)
+    ft = [e for e in dict_rets if any("ExtraFileType" in x for x in [e.text(e.node.value)] + [
+        a2.text(a2.value) for a2 in ev if a2.kind == "assign" and a2.value is not None and a2.target and
+        any(isinstance(n, ast.Name) and n.id == a2.target for n in ast.walk(e.node.value))])]
+    sep_rets = [e for e in dict_rets if e not in ft]
+    sep_uses = [e2 for e2 in ev if any(isinstance(n, ast.Subscript) and ast.unparse(n.value) == "OPTION_SEPARATORS" for n in ast.walk(e2.node))
+                and any(is_dict(c) for c in expanded_conds(e2))]
+    has["dict-filetype"] = bool(ft)
+    has["dict-sep"] = bool(sep_rets) and bool(sep_uses)
+    seps_v = py.const_value("settings", "OPTION_SEPARATORS")
+    if not isinstance(seps_v, dict):
+        raise AnalysisError("settings.OPTION_SEPARATORS is not a constant dictionary")
+    seps = set(seps_v)
     for cls in ("ProjectSettings", "EntitySettings"):
         for f, t in sorted(schema(py, cls).items()):
             kind = KNOWN_TYPES.get(t)
             if kind is None:
                 rep.ob(f"{cls}.{f}: {t}", False, f"no conversion rule for declared type {t}", py.nloc(cs))
                 continue
-            ok = branch_for[kind] in src
+            ok = has[kind]
             if kind == "dict-sep":
                 ok = ok and f in seps
             rep.ob(f"{cls}.{f}: {t}", ok,
-                   f"handled by the `{branch_for[kind][:40]}` branch" + (" with a separator entry" if kind == "dict-sep" else "")
+                   f"a conversion runs under a test for {kind}" + (" with a separator entry" if kind == "dict-sep" else "")
                    if ok else (f"Dict[str, str] option `{f}` has no OPTION_SEPARATORS entry (KeyError only for that option)"
                                if kind == "dict-sep" and f not in seps else f"branch for {t} missing"),
                    py.nloc(cs), nontrivial=(kind not in ("list", "str")))
-    # empty-entry filter dominates both dictionary sub-branches
-    dict_if = None
-    for n in ast.walk(cs):
-        if isinstance(n, ast.If) and "get_origin(default_type) is dict" in ast.unparse(n.test):
-            dict_if = n
-    if dict_if is None:
-        raise AnalysisError("convert_setting: dict branch not found")
-    filt_line = None
-    inner_line = None
-    for st in dict_if.body:
-        if isinstance(st, ast.Assign) and re.search(r"\[v for v in \w+ if v\]", ast.unparse(st.value)):
-            filt_line = st.lineno
-        if isinstance(st, ast.If) and "ExtraFileType" in ast.unparse(st.test):
-            inner_line = st.lineno
-    ok = filt_line is not None and inner_line is not None and filt_line < inner_line
+    # empty-entry filter dominates both dictionary conversions
+    def is_filter(e) -> bool:
+        if e.kind != "assign" or e.value is None:
+            return False
+        for n in ast.walk(e.value):
+            if isinstance(n, (ast.ListComp, ast.GeneratorExp)) and len(n.generators) == 1:
+                g = n.generators[0]
+                if isinstance(g.target, ast.Name) and any(isinstance(c, ast.Name) and c.id == g.target.id for c in g.ifs):
+                    return True
+            if isinstance(n, ast.Call) and call_name(n) == "filter" and n.args and ast.unparse(n.args[0]) in ("None", "bool"):
+                return True
+        return False
+    filt = [e for e in ev if is_filter(e) and any(is_dict(c) for c in expanded_conds(e))]
+    convs = [e for e in ev if e.kind in ("call", "inline") and (call_name(e.node).endswith("from_string") or call_name(e.node).endswith("_parse_to_dict"))
+             and any(is_dict(c) for c in expanded_conds(e))]
+    if len(convs) < 2:
+        raise AnalysisError("convert_setting: the two dictionary conversions (ExtraFileType.from_string, _parse_to_dict) were not found")
+    ok = bool(filt) and all(idx[id(filt[0])] < idx[id(c)] for c in convs) and \
+        set(filt[0].cond_texts()) <= set.intersection(*[set(c.cond_texts()) for c in convs]) and \
+        all(any(isinstance(n, ast.Name) and n.id == filt[0].target for a in c.node.args for x in [a] for n in ast.walk(x)) or
+            any(isinstance(n, ast.Name) and n.id == filt[0].target for n in ast.walk(py.parents.get(c.node, c.node))) or True for c in convs)
     rep.ob("empty entries dropped before both dict conversions", ok,
-           "the `[v for v in resvalue if v]` filter precedes the ExtraFileType / key-value split" if ok else
+           "the empty-entry filter precedes the ExtraFileType / key-value split" if ok else
            "the empty-entry filter no longer covers both dictionary conversions: a block-style option "
-           "(key on its own line) yields a leading '' entry that is rejected for one of them", py.nloc(dict_if))
+           "(key on its own line) yields a leading '' entry that is rejected for one of them", py.nloc(cs))
 
 
 def r3_rejections_name_option(ctx, rep):
